@@ -416,6 +416,27 @@ func (p *hProfile) genStep(t *rapid.T, view *hView) bson.D {
 		add("field", rapid.SampledFrom([]string{"a", "b", "c", "a.b", "_id"}).Draw(t, "dfield"))
 		add("filter", p.genFilter(t, view, ns))
 	case "updateOne", "updateMany":
+		if op == "updateMany" && len(p.tinyVals) > 0 && rapid.IntRange(0, 999).Draw(t, "shift")%5 == 2 {
+			// shift every numeric value of one field (preferably an indexed
+			// one): the new key of one document is the old key of another,
+			// yet no two end up equal
+			ks := []string{"a", "b", "c"}
+			for _, kd := range view.idxKeys[ns] {
+				if len(kd) == 1 && kd[0].Key != "_id" && !strings.Contains(kd[0].Key, ".") {
+					ks = append(ks, kd[0].Key, kd[0].Key, kd[0].Key)
+				}
+			}
+			k := rapid.SampledFrom(ks).Draw(t, "shiftk")
+			add("filter", bson.D{{Key: k, Value: bson.D{{Key: "$gte", Value: int32(1)}, {Key: "$not", Value: bson.D{{Key: "$type", Value: "array"}}}}}})
+			add("update", rapid.SampledFrom([]bson.D{
+				{{Key: "$inc", Value: bson.D{{Key: k, Value: int32(1)}}}},
+				{{Key: "$inc", Value: bson.D{{Key: k, Value: int32(-1)}}}},
+				{{Key: "$mul", Value: bson.D{{Key: k, Value: int32(2)}}}},
+				{{Key: "$bit", Value: bson.D{{Key: k, Value: bson.D{{Key: "xor", Value: int32(3)}}}}}},
+			}).Draw(t, "shiftu"))
+			add("upsert", false)
+			break
+		}
 		upd, af := p.genUpdate(t, view, ns)
 		if op == "updateMany" {
 			add("filter", p.genFilterBroad(t, view, ns))
